@@ -149,14 +149,15 @@ def matchGo (fcs : List (List BPt)) (rest : List Contour) (allFwd allBwd : Bool)
     match rest.zipIdx.find? fun (sc, _) => contourMatches fc sc with
     | some (sc, i) => matchGo more (rest.eraseIdx i) (allFwd && matchesFwd fc sc) (allBwd && matchesBwd fc sc)
     | none =>
-      -- report the attempt (rotation / direction of a same-size source contour) that got furthest
-      let tries := (rest.filter (·.length == fc.length)).flatMap fun sc =>
-        (rotations sc ++ rotations sc.reverse).filterMap fun r => firstDiff fc r
-      match tries.foldl (fun (best : Option (Nat × String)) m =>
+      -- report the closest attempt (rotation / direction of a same-size source contour, least total deviation)
+      let cost (r : Contour) : Rat := ((fc.zip r).map fun (p, q) => absR (p.x - q.x) + absR (p.y - q.y)).foldl (· + ·) 0
+      let tries := (rest.filter (·.length == fc.length)).flatMap fun sc => rotations sc ++ rotations sc.reverse
+      match tries.foldl (fun (best : Option (Rat × Contour)) r =>
+          let c := cost r
           match best with
-          | none => some m
-          | some b => if m.1 > b.1 then some m else some b) none with
-      | some (_, msg) => .error msg
+          | none => some (c, r)
+          | some b => if c < b.1 then some (c, r) else some b) none with
+      | some (_, r) => .error ((firstDiff fc r).map (·.2) |>.getD "?")
       | none => .error s!"no source contour with {fc.length} points"
 
 /-- Greedy matching of font contours to source contours. Returns an error message, or whether every match was
@@ -197,10 +198,12 @@ def storageAgrees (f : Font) (st : State) (n : String) : Option String :=
 
 /-! ### One build -/
 
+structure Failure where
+  cls : String
+  detail : String
+
 structure BuildCheck where
-  ok : Bool := true
-  cls : String := ""
-  detail : String := ""
+  fails : List Failure := []
   corr : Option Bool := none
   corrDetail : String := ""
   maxDepth : Nat := 0
@@ -208,18 +211,53 @@ structure BuildCheck where
   dirFwd : Bool := true
   dirBwd : Bool := true
 
+/-- Classes of failures that are recorded findings (known_findings.json); everything else is generic. -/
+def knownClasses : List String := ["flatten-overflow-saturated", "flatten-loses-nested-master"]
+
 def flagWord (bits : Nat) : String :=
   let fl := Flags.ofBits bits
   s!"flags={bits}[{if fl.preferSimple then "P" else "-"}{if fl.flatten then "F" else "-"}{if fl.decomposeTransformed then "T" else "-"}{if fl.decomposeAll then "D" else "-"}]"
 
-def checkBuild (d : Design) (names exported : List String) (locs : List (String × List Rat))
+/-- `has_consistent_components` after non-export inlining: the (base, 2×2) sequence of the glyph's components is
+    the same at every location. -/
+def inconsistentNames (names exported : List String) (envs : List (List (String × Inst))) : List String :=
+  let key (G : Env) (n : String) : List (String × List Rat) :=
+    match G n with
+    | none => []
+    | some i => i.comps.map fun c => (c.base, [c.t.a, c.t.b, c.t.c, c.t.d])
+  let inl := envs.map fun e => inlineAll (fun n => exported.contains n) names (Env.ofList e)
+  names.filter fun n =>
+    match inl with
+    | [] => false
+    | g0 :: rest => rest.any fun g => key g n != key g0 n
+
+/-- Names reachable from `n` through components in the source at the default location. -/
+def closure (G : Env) (fuel : Nat) (n : String) : List String := reachable G fuel [n]
+
+def classify (d : Design) (fl : Flags) (st : State) (srcG : Env) (names : List String) (n : String) (loc : List Rat) : String :=
+  if fl.flatten && !fl.decomposeAll then
+    -- (A) the flattened glyph (exact model state) has a composed 2×2 entry outside [-2, 2]: fontbe saturates it
+    let reach := closure st.env (st.names.length + 1) n
+    let overflow := reach.any fun m =>
+      match st.env m with
+      | none => false
+      | some i => i.comps.any (·.t.overflows)
+    if overflow then "flatten-overflow-saturated" else
+    -- (B) `loc` is a master location of a glyph nested below `n` but not of `n` itself
+    let hasMaster (g : String) := d.masters.any fun m => m.nloc == loc && (m.glyph? g).isSome
+    let nested := (closure srcG (names.length + 1) n).any fun m => m != n && hasMaster m
+    if !hasMaster n && nested then "flatten-loses-nested-master" else "resolved-outline-differs"
+  else "resolved-outline-differs"
+
+def checkBuild (d : Design) (names exported incons : List String) (locs : List (String × List Rat))
     (envs : List (List (String × Inst))) (bits : Nat) (f : Font) : BuildCheck := Id.run do
   let mut r : BuildCheck := {}
   r := { r with composites := (f.glyf.filter fun g => match g with | .composite .. => true | _ => false).length }
+  let fl := Flags.ofBits bits
   -- correspondence with the gating model (default location)
   let dLoc := List.replicate d.axes.length (0 : Rat)
   let env0 := Env.ofList (envAt d names dLoc)
-  let st := process (Flags.ofBits bits) (fun n => exported.contains n) (fun _ => false) names env0
+  let st := process fl (fun n => exported.contains n) (fun n => incons.contains n) names env0
   if f.names != ".notdef" :: st.order then
     r := { r with corr := some false, corrDetail := s!"{flagWord bits} glyph order font {f.names} model {st.order}" }
   else
@@ -228,33 +266,35 @@ def checkBuild (d : Design) (names exported : List String) (locs : List (String 
     | none => r := { r with corr := some true }
   -- oracle
   for n in exported do
-    if !r.ok then break
     match f.gidOf? n with
-    | none => r := { r with ok := false, cls := "glyph-missing-from-font", detail := s!"{flagWord bits} {n}" }
+    | none => r := { r with fails := r.fails ++ [⟨"glyph-missing-from-font", s!"{flagWord bits} {n}"⟩] }
     | some gid =>
+      -- the glyphs involved in drawing `n` (source, default location)
+      let involved := closure env0 (names.length + 1) n
       for ((mname, loc), envL) in locs.zip envs do
-        if !r.ok then break
+        -- only where the source draws something: `loc` is a master location of `n` or of a glyph nested in it
+        -- (elsewhere the outline is pure interpolation, which legitimately depends on how the glyph is stored)
+        if !(d.masters.any fun m => m.nloc == loc && involved.any fun g => (m.glyph? g).isSome) then continue
         let G := Env.ofList envL
         let src := resolve G (names.length + 1) n
         let (fcs, dep, _) := fontResolve d f loc (f.names.length + 1) gid
         r := { r with maxDepth := Nat.max r.maxDepth dep }
         match matchDrawings fcs src with
         | .error msg =>
-          r := { r with ok := false, cls := "resolved-outline-differs",
-                        detail := s!"{flagWord bits} glyph {n} at master {mname} {loc}: {msg}" }
+          r := { r with fails := r.fails ++ [⟨classify d fl st env0 names n loc,
+                        s!"{flagWord bits} glyph {n} at master {mname} {loc}: {msg}"⟩] }
         | .ok (fwd, bwd) => r := { r with dirFwd := r.dirFwd && fwd, dirBwd := r.dirBwd && bwd }
       -- advance: exact at the default, within 1 at every master that draws the glyph
       let adv0 : Rat := ((f.hmtx.getD gid (0, 0)).1 : Rat)
       for m in d.masters do
-        if !r.ok then break
         match m.glyph? n with
         | none => pure ()
         | some sg =>
           let adv : Rat := adv0 + (match f.hvar with | some hv => varTableDelta hv gid m.nloc | none => 0)
           let isDef := m.nloc.all (· == 0)
           if (isDef && adv ≠ (otRound sg.advance : Rat)) || absR (adv - sg.advance) > 1 then
-            r := { r with ok := false, cls := "advance-differs",
-                          detail := s!"{flagWord bits} glyph {n} at master {m.name}: font {adv} vs source {sg.advance}" }
+            r := { r with fails := r.fails ++ [⟨"advance-differs",
+                          s!"{flagWord bits} glyph {n} at master {m.name}: font {adv} vs source {sg.advance}"⟩] }
   return r
 
 def dedupLocs (ms : List SMaster) : List (String × List Rat) :=
@@ -273,26 +313,32 @@ def handle : Handler := fun s =>
       let exported := names.filter fun n => !d.skip.contains n
       let locs := dedupLocs d.masters
       let envs := locs.map fun (_, l) => envAt d names l
+      let incons := inconsistentNames names exported envs
       let results : List (Nat × Option BuildCheck × String) := builds.map fun b =>
         let bits := ((b.field1? "flags").bind Sexp.asNat?).getD 0
         match b.field? "result" with
         | some (.atom "ok" :: _) =>
           match parseFont b with
-          | some f => (bits, some (checkBuild d names exported locs envs bits f), "")
+          | some f => (bits, some (checkBuild d names exported incons locs envs bits f), "")
           | none => (bits, none, "unparseable font dump")
         | some (.atom "err" :: msg) => (bits, none, (msg.head?.bind Sexp.asString?).getD "")
         | _ => (bits, none, "no result")
       let rejected := results.find? fun (_, c, _) => c.isNone
       let checks := results.filterMap fun (_, c, _) => c
-      let bad := checks.find? (!·.ok)
+      let allFails := checks.flatMap (·.fails)
+      -- a failure of an unrecorded kind is reported before the recorded findings
+      let bad := match allFails.find? fun x => !knownClasses.contains x.cls with
+        | some x => some x
+        | none => allFails.head?
       let corrBad := checks.find? (·.corr == some false)
       let corr : Option Bool := if checks.isEmpty then none else some corrBad.isNone
-      -- advances (hmtx) identical across builds
       let dGlyphs := dm.glyphs
-      let maxDepthSrc := (names.map fun n => depth (Env.ofList (envs.headD [])) names.length n).foldl Nat.max 0
+      let srcG := Env.ofList (envs.headD [])
+      let maxDepthSrc := (names.map fun n => depth srcG names.length n).foldl Nat.max 0
       let hasT := dGlyphs.any fun g => g.components.any fun c => (Affine.ofList c.t).nonIdentity2x2
       let hasFlip := dGlyphs.any fun g => g.components.any fun c => (Affine.ofList c.t).det < 0
       let hasMixed := dGlyphs.any fun g => !g.components.isEmpty && !g.contours.isEmpty
+      let hasOverflow := dGlyphs.any fun g => g.components.any fun c => (Affine.ofList c.t).overflows
       let neUsed := dGlyphs.any fun g => g.components.any fun c => d.skip.contains c.base
       let compCounts := checks.map (·.composites)
       let dirVaries := checks.any (fun c => !c.dirFwd) && checks.any (fun c => !c.dirBwd) ||
@@ -301,6 +347,7 @@ def handle : Handler := fun s =>
         (if d.masters.any (·.sparse) then ["sparse"] else []) ++
         (if hasT then ["transformed"] else []) ++ (if hasFlip then ["flipped"] else []) ++
         (if hasMixed then ["mixed"] else []) ++ (if neUsed then ["nonexport-used"] else []) ++
+        (if hasOverflow then ["overflow2x2"] else []) ++ (if incons.isEmpty then [] else ["inconsistent2x2"]) ++
         (if compCounts.any (· != compCounts.headD 0) then ["storage-varies"] else ["storage-same"]) ++
         (if dirVaries then ["direction-varies"] else [])
       let nt := maxDepthSrc ≥ 1 && (hasT || hasMixed || neUsed || maxDepthSrc ≥ 2)
@@ -308,7 +355,9 @@ def handle : Handler := fun s =>
       | some (bits, _, msg), _ =>
         { corr := corr, oracle := some false, nontrivial := nt, cls := "valid-source-rejected", tags,
           detail := s!"{flagWord bits}: {msg}" }
-      | none, some b => { corr := corr, oracle := some false, nontrivial := nt, cls := b.cls, tags, detail := b.detail }
+      | none, some b =>
+        { corr := corr, oracle := some false, nontrivial := nt, cls := b.cls, tags,
+          detail := s!"{b.detail} ({allFails.length} failing (flags, glyph, master) triples)" }
       | none, none =>
         { corr := corr, oracle := some true, nontrivial := nt, tags,
           cls := if corr == some false then "storage-differs-from-model" else "",
